@@ -99,6 +99,21 @@ pub fn c13(tier: &str, seed: u64) -> Vec<Case> {
                 Op::Clear => { mgr.clear(); line.push_str(" X"); reg.clear(); }
             }
         }
+        // a service whose SRV record points at the name that also owns the address records, asked for
+        // both: the address records are answers to one question and additional records of the other
+        if it % 9 == 4 {
+            let host = mk_name(&r.pick(&names)[..]);
+            let recs = [
+                ResourceRecord::new(host.clone(), CLASS::IN, 120, RData::SRV(SRV { priority: 0, weight: 0, port: 80, target: host.clone() })),
+                ResourceRecord::new(host.clone(), CLASS::IN, 120, RData::A(A { address: 7 })),
+                ResourceRecord::new(host.clone(), CLASS::IN, 120, RData::AAAA(AAAA { address: 7 })),
+            ];
+            for rr in recs { mgr.add_authoritative_resource(rr.clone()); line.push_str(&format!(" A {}", text::rr(&rr)));
+                match reg.iter_mut().find(|e| same(&e.0, &rr)) { Some(e) => e.1 = true, None => reg.push((rr.clone(), true)) } }
+            q.questions.clear();
+            let order: &[QTYPE] = match r.below(4) { 0 => &[QTYPE::TYPE(TYPE::SRV), QTYPE::TYPE(TYPE::A)], 1 => &[QTYPE::TYPE(TYPE::A), QTYPE::TYPE(TYPE::SRV)], 2 => &[QTYPE::TYPE(TYPE::SRV), QTYPE::TYPE(TYPE::AAAA)], _ => &[QTYPE::ANY] };
+            for qt in order { q.questions.push(Question::new(host.clone(), *qt, CLASS::IN.into(), false)); }
+        }
         line.push_str(&format!(" Q {} 5", text::packet(&q)));
         let qid = q.id();
         let questions = q.questions.clone();
@@ -178,7 +193,7 @@ fn history(seed: u64, steps: usize) -> Vec<Case> {
             let i = r.below(4) as usize;
             match r.below(10) {
                 0..=5 => {
-                    let ttl = *r.pick(&[0u32, 1, 1, 2, 2, 1000]);
+                    let ttl = *r.pick(&[0u32, 1, 1, 2, 2, 1000, 0x7FFF_FFFF, 0x8000_0000, u32::MAX]);
                     let flush = r.chance(1, 4);
                     let mut rr = recs[i].clone().with_cache_flush(flush);
                     rr.ttl = ttl;
